@@ -204,7 +204,7 @@ func verifValues(thorough bool) (leaf []interface{}, mid []interface{}) {
 		}
 	}
 	// arrays of leaves / keyed objects up to length 3
-	elems := []interface{}{1, 2, "s", keyed(1, 1), keyed(2, 1), keyed(1, 2)}
+	elems := []interface{}{1, 2, "s", nil, keyed(1, 1), keyed(2, 1), keyed(1, 2)}
 	var arrs []interface{}
 	maxLen := 3
 	var rec func(cur []interface{})
